@@ -125,7 +125,7 @@ static std::string strfu(const std::string& s) {  // documented: leading blanks 
 }
 
 struct ProgEvent { int future; std::string title; int month, day, hour, min, lh, lm; long n; /* number of the byte pair that raised it */ };
-struct NetEvent { std::string name, call; };
+struct NetEvent { std::string name, call; long n; /* number of the byte pair that raised it */ bool id_only; /* NETWORK_ID rather than NETWORK */ };
 
 struct C09 : World {
   const char* name() const override { return "c09"; }
@@ -210,8 +210,11 @@ struct C09 : World {
     if (fpin) add(1, 1);
     if (!fpin || r.chance(2, 3)) add(1, 3);
     if (r.chance(1, 4)) add(1, 2);
-    if (r.chance(1, 4)) add(2, 1);
-    if (r.chance(1, 6)) add(2, 2);
+    // "station" flavour: the station identifies itself with name and call letters round after round; at a
+    // boundary the call letters alone (another affiliate of the same network), the name alone or both change
+    bool station = r.chance(2, 5);
+    if (station) { add(2, 1); if (r.chance(4, 5)) add(2, 2); }
+    else { if (r.chance(1, 4)) add(2, 1); if (r.chance(1, 6)) add(2, 2); }
     for (size_t i = items.size(); i > 1; i--) std::swap(items[i - 1], items[r.below(i)]);  // transmission order
     int shape = (int)r.below(3);
     p.knobs["guide_shape"] = shape;
@@ -226,11 +229,19 @@ struct C09 : World {
     bool faults = r.chance(1, 4);
     p.knobs["faults_enabled"] = faults ? (1 << F_N) - 1 : 1;
     bool reshuffle = r.chance(1, 4);  // the order of the items changes from round to round
-    int epochs = r.chance(1, 2) ? 2 : 1;
+    int epochs = station ? 1 + (int)r.below(3) : r.chance(1, 2) ? 2 : 1;
     p.knobs["guide_epochs"] = epochs;
+    if (station) p.knobs["guide_station"] = 1;
     for (int e = 0; e < epochs; e++) {
-      if (e > 0)  // programme boundary: most items get new content
-        for (auto& g : items) if (r.chance(3, 4)) { g.ps += 1 + (int64_t)r.below(5); if (g.type == 3) g.len = 2 + (int)r.below(31); }
+      if (e > 0) {  // programme boundary: most items get new content
+        int what = station ? (int)r.below(4) : 3;  // 0 call letters only, 1 name only, 2 both, 3 whatever the dice say
+        for (auto& g : items) {
+          bool chg = r.chance(3, 4);
+          if (g.cls == 2 && what < 3) chg = (g.type == 2 && what != 1) || (g.type == 1 && what != 0);
+          else if (station && what < 3) chg = r.chance(1, 4);
+          if (chg) { g.ps += 1 + (int64_t)r.below(5); if (g.type == 3) g.len = 2 + (int)r.below(31); }
+        }
+      }
       int rounds = 5 + (int)r.below(4);
       for (int k = 0; k < rounds; k++) {
         std::vector<size_t> order(items.size());
@@ -261,6 +272,16 @@ struct C09 : World {
     bool have_dec = false; std::string dec; long run_start = 0;  // current run of equal DECODED content
     long uncertain_since = 0;  // first packet of this type since the last certain one that the decoder may or may not have seen
   };
+  // Announcement model of the station identification (channel class: type 1 network name, type 2 call letters),
+  // see net_update()/net_check().
+  struct NetLive {
+    bool have_name = false; std::string name;   // decoded name of the last certain delivery since the last disturbance
+    bool have_call = false; std::string call;   // decoded call letters of the last certain delivery ("" and !have_call: none ever sent)
+    bool call_uncertain = false;                // a call letters packet may or may not have reached the decoder since
+    int name_cnt = 0;                           // certain name deliveries at or after the last change point, undisturbed
+    bool have_comb = false; std::string comb_name, comb_call; long run_start = 0;  // current run of one decoded (name, call) combination
+    long uncertain_since = 0;
+  };
   struct St {
     RunCtx* ctx; Sched* sched;
     vbi_xds_demux* xd = nullptr;
@@ -282,6 +303,8 @@ struct C09 : World {
     long disturb_n = 0;           // number of the last byte pair the announcement clause does not reason about
     long last_cp_n[2] = {0, 0};   // pair number of the class's last change point
     std::vector<int> pending;     // cls*256+type delivered by the current pair, checked after vbi_decode returned
+    NetLive net;                  // announcement model of the channel class (network name, call letters)
+    bool net_pending = false;
   };
   static St* g;
 
@@ -311,8 +334,13 @@ struct C09 : World {
       g->prog_events.push_back(e);
       g->ctx->log("ev PROG_INFO future=%d title='%s' pin=%d/%d %d:%d len=%d:%d", e.future, e.title.c_str(), e.month, e.day, e.hour, e.min, e.lh, e.lm);
       check_prog_event(e);
+    } else if (ev->type == VBI_EVENT_NETWORK_ID) {
+      NetEvent e; e.name = (const char*)ev->ev.network.name; e.call = (const char*)ev->ev.network.call; e.n = g->ref.n; e.id_only = true;
+      g->net_events.push_back(e);
+      g->ctx->log("ev NETWORK_ID name='%s' call='%s'", e.name.c_str(), e.call.c_str());
+      check_net_event(e);
     } else if (ev->type == VBI_EVENT_NETWORK) {
-      NetEvent e; e.name = (const char*)ev->ev.network.name; e.call = (const char*)ev->ev.network.call;
+      NetEvent e; e.name = (const char*)ev->ev.network.name; e.call = (const char*)ev->ev.network.call; e.n = g->ref.n; e.id_only = false;
       g->net_events.push_back(e);
       g->ctx->log("ev NETWORK name='%s' call='%s'", e.name.c_str(), e.call.c_str());
       check_net_event(e);
@@ -416,6 +444,7 @@ struct C09 : World {
     if (upto < s.ref.n) upto = s.ref.n;
     if (upto > s.disturb_n) s.disturb_n = upto;
     for (auto& cl : s.live) for (auto& it : cl) { it.have_raw = false; it.cnt = 0; }
+    s.net.have_name = false; s.net.name_cnt = 0;
     s.ctx->count("live_disturbances");
   }
   // decoded value of the two items under the clause, from EIA-608: id number = minute 0-59, hour 0-23,
@@ -433,6 +462,7 @@ struct C09 : World {
   }
   static void announce_update(const Delivery& d) {  // before the pair reaches the decoder
     St& s = *g;
+    if (d.cls == 2 && (d.type == 1 || d.type == 2)) { net_update(d); return; }
     if (d.cls > 1 || !decoder_knows(d.cls, d.type)) return;
     LiveItem& li = s.live[d.cls][d.type];
     if (d.maybe || d.start_n <= s.disturb_n) {
@@ -481,6 +511,77 @@ struct C09 : World {
     s.pending.clear();
   }
 
+  // ---- the same for the station identification: network name and call letters -------------------------
+  // Statement: "... programme/network information (title, length, rating, network name, call letters ...)
+  // equals the decoded content of the delivered packets, announced after the documented repeat."  The
+  // decoder documents that a station is announced (VBI_EVENT_NETWORK when it differs from the station
+  // known so far, VBI_EVENT_NETWORK_ID in any case) when the network name packet is received a second time
+  // unchanged; changed call letters make it start over so that the station is announced with its new call
+  // sign.  Clause: a "change point" of the channel class is a delivered name or call letters packet whose
+  // DECODED content differs from the previous one of its type (or which has none).  When the name packet
+  // with decoded content X was delivered NET_ANNOUNCE_BY times at or after the last change point, with the
+  // call letters Y of the last delivered call letters packet ("" when none was ever sent) and no
+  // disturbance in that time, a NETWORK or NETWORK_ID event carrying name X and call letters Y must have
+  // been raised since the combination (X, Y) first became current.
+  // NET_ANNOUNCE_BY = 3: the second-occurrence rule needs 2 name receptions after the last change (the
+  // changed name / the first name after changed call letters, and its repeat); one more for margin.
+  // Leniencies: disturbances as for the programme classes (faulty, over-long, empty, undetermined packets,
+  // parity errors, NETWORK events = possible channel switch dropping packets in flight): the count
+  // restarts, the next name packet counts as a change point; an announcement of (X, Y) made earlier in the
+  // same run of (X, Y) is accepted (the decoder need not announce again what it has announced, and the model
+  // cannot tell whether an undetermined packet reached it); while a call letters packet is undetermined
+  // (until the next certain one) any call letters are accepted in the event.
+  static constexpr int NET_ANNOUNCE_BY = 3;
+  static void net_update(const Delivery& d) {  // before the pair reaches the decoder
+    St& s = *g;
+    NetLive& nl = s.net;
+    if (d.maybe || d.start_n <= s.disturb_n) {
+      if (!nl.uncertain_since) nl.uncertain_since = s.ref.n;
+      if (d.type == 2) nl.call_uncertain = true;
+      if (d.maybe) announce_disturb();
+      else { nl.have_name = false; nl.name_cnt = 0; }
+      return;
+    }
+    std::string dec = strfu(d.bytes);
+    if (d.type == 1) {
+      if (nl.have_name && nl.name == dec) nl.name_cnt++;
+      else { nl.have_name = true; nl.name = dec; nl.name_cnt = 1; }
+    } else {
+      bool same = nl.have_call && !nl.call_uncertain && nl.call == dec;
+      nl.have_call = true; nl.call = dec; nl.call_uncertain = false;
+      if (!same) nl.name_cnt = 0;  // change point (or the model cannot tell): the name must repeat afresh
+    }
+    if (nl.have_name && !nl.call_uncertain) {
+      std::string call = nl.have_call ? nl.call : std::string();
+      if (!(nl.have_comb && nl.comb_name == nl.name && nl.comb_call == call)) {
+        nl.have_comb = true; nl.comb_name = nl.name; nl.comb_call = call;
+        nl.run_start = nl.uncertain_since ? nl.uncertain_since : s.ref.n;
+      }
+      nl.uncertain_since = 0;
+    }
+    if (d.type == 1 && !dec.empty() && nl.name_cnt >= NET_ANNOUNCE_BY) s.net_pending = true;
+  }
+  static void net_check() {  // after vbi_decode() returned for the pair
+    St& s = *g;
+    if (!s.net_pending) return;
+    s.net_pending = false;
+    const NetLive& nl = s.net;
+    if (!nl.have_name || nl.name_cnt < NET_ANNOUNCE_BY) return;  // a disturbance arrived with this very pair
+    s.ctx->count("net_live_checks");
+    if (nl.have_call && !nl.call_uncertain) s.ctx->count("net_live_checks_with_call");
+    std::string call = nl.have_call ? nl.call : std::string();
+    long since = (nl.have_comb && !nl.call_uncertain) ? nl.run_start : 0;
+    bool ok = false;
+    for (size_t i = s.net_events.size(); i-- > 0 && !ok;) {
+      const NetEvent& e = s.net_events[i];
+      if (e.n < since) break;
+      ok = e.name == nl.name && (nl.call_uncertain || e.call == call);
+    }
+    if (!ok)
+      s.ctx->fail("oracle:xds-network-never", "network name '%s' received %d times with call letters '%s' and nothing of the channel class changing and no fault, but no NETWORK / NETWORK_ID event has announced this station since it was first identified so (pair %ld)",
+                  nl.name.c_str(), nl.name_cnt, call.c_str(), since);
+  }
+
   // one byte pair on field 2 -> both systems and the reference
   static void deliver(int b0, int b1) {
     St& s = *g;
@@ -507,6 +608,7 @@ struct C09 : World {
     { SutScope ss; vbi_decode(s.dec, sl, 2, s.ts); }
     budget_end();
     if (!s.ctx->failed) announce_check();
+    if (!s.ctx->failed) net_check();
     // compare demux deliveries with the reference, in order; "maybe" deliveries may be absent
     compare(false);
   }
@@ -703,7 +805,7 @@ struct C09 : World {
     ctx.count("ref_deliveries", (int64_t)certain);
     ctx.count("prog_info_events", (int64_t)st.prog_events.size());
     ctx.count("network_events", (int64_t)st.net_events.size());
-    if (plan.knob("guide")) { ctx.count("guide_runs"); if (plan.knob("guide_epochs") > 1) ctx.count("guide_runs_programme_boundary"); }
+    if (plan.knob("guide")) { ctx.count("guide_runs"); if (plan.knob("guide_epochs") > 1) ctx.count("guide_runs_programme_boundary"); if (plan.knob("guide_station")) ctx.count("guide_runs_station"); }
     ctx.nontrivial = certain >= 2 && st.interruptions >= 1;
     ctx.sim_seconds = st.ts - 1000.0;
     g = nullptr;
